@@ -299,6 +299,28 @@ def check(model: Model, run: Run) -> None:
             if not ok:
                 run.fail(Finding("I2-option-defaults-are-fresh", cq, f"{f.name}: {why}", f"{c.name}.{f.name} does not get a fresh value per instance ({why}): registrations would leak between sessions", model.loc(c.module, c.node)))
     run.floor("option dataclasses", n_opts, 4)
+    # ---- I7: memoised functions hand the same object to every caller -------------------------------------
+    IMMUTABLE = ("str", "bytes", "int", "bool", "float", "None", "re.Pattern", "t.Pattern", "typing.Pattern")
+    n_fn7 = 0
+    for fq, fi in sorted(model.functions.items()):
+        if isinstance(fi.node, ast.Lambda):
+            continue
+        n_fn7 += 1
+        for d in fi.node.decorator_list:
+            dn = norm(d.func if isinstance(d, ast.Call) else d).split(".")[-1]
+            if dn in ("lru_cache", "cache", "cached_property"):
+                ra = norm(fi.node.returns) if fi.node.returns is not None else ""
+                inner = ra
+                for w in ("t.Optional[", "typing.Optional[", "Optional["):
+                    if inner.startswith(w) and inner.endswith("]"):
+                        inner = inner[len(w):-1]
+                ok = inner in IMMUTABLE
+                run.ob("I7-no-memoised-mutable-results", ok, {"function": fq, "returns": ra})
+                if not ok:
+                    run.fail(Finding("I7-no-memoised-mutable-results", fq, f"@{dn} -> {ra or '?'}",
+                                     f"{fi.name} is memoised with @{dn} but returns `{ra or 'an unannotated value'}`: every caller (every session, every parsed definition) receives the same mutable object",
+                                     model.loc(fi.module, fi.node)))
+    run.ob("I7-no-memoised-mutable-results", True, {"functions_scanned": n_fn7})
     # ---- I3/I4 ------------------------------------------------------------------------------------------
     n_fn = 0
     for mn, m in model.modules.items():
@@ -381,3 +403,30 @@ def check(model: Model, run: Run) -> None:
         run.ob("I6-registration-guarded", ok, {"method": fi.name})
         if not ok:
             run.fail(Finding("I6-registration-guarded", fi.qualname, why[:80], f"{fi.name}: {why}", model.loc(SESSION_MOD, fi.node)))
+
+
+def parse_results_fresh(model: Model, run: Run, module: str, rule: str, what: str) -> None:
+    """Round-trip properties quantify over *every* parse: a parse result that is cached (a memoised helper, a module-level
+    table written by the parser) is shared between calls, so a caller editing one result changes later ones."""
+    m = model.modules[module]
+    class_names = {n.name for n in m.tree.body if isinstance(n, ast.ClassDef)}
+    n = 0
+    for fq, construct, node, why in shared_state_writes(module, m.tree, class_names):
+        if (fq, construct) in REVIEWED:
+            continue
+        n += 1
+        run.ob(rule, False, {"function": fq, "construct": construct})
+        run.fail(Finding(rule, fq, construct[:80], f"{fq.split('sansldap.')[-1]} {why}: {what} would depend on earlier calls", model.loc(module, node)))
+    for fq, fi in sorted(model.functions.items()):
+        if fi.module != module or isinstance(fi.node, ast.Lambda):
+            continue
+        for d in fi.node.decorator_list:
+            dn = norm(d.func if isinstance(d, ast.Call) else d).split(".")[-1]
+            if dn in ("lru_cache", "cache", "cached_property"):
+                ra = norm(fi.node.returns) if fi.node.returns is not None else ""
+                ok = ra in ("str", "bytes", "int", "bool", "t.Optional[str]", "t.Optional[int]", "t.Optional[bytes]")
+                run.ob(rule, ok, {"function": fq, "decorator": dn, "returns": ra})
+                if not ok:
+                    run.fail(Finding(rule, fq, f"@{dn} -> {ra or '?'}", f"{fi.name} is memoised with @{dn} and returns `{ra or 'an unannotated value'}`: "
+                                     f"parsed values share one mutable object, so {what} stops holding once a caller edits a result", model.loc(module, fi.node)))
+    run.ob(rule, True, {"module": module, "shared_state_constructs": n})
